@@ -25,6 +25,9 @@ const lpPacketOverhead = 1 + 3
 const pitTokenOverhead = 1 + 1 + 6
 const congestionMarkOverhead = 3 + 1 + 8
 
+// maxFragments is the largest FragCount accepted for reassembly (NFD: LpReassembler nMaxFragments)
+const maxFragments = 400
+
 const (
 	FaceFlagLocalFields = 1 << iota
 	FaceFlagLpReliabilityEnabled
@@ -396,10 +399,19 @@ func (l *NDNLPLinkService) reassemblePacket(
 	fragIndex uint64,
 	fragCount uint64,
 ) enc.Wire {
-	_, hasSequence := l.partialMessageStore[baseSequence]
+	// FragIndex and FragCount come from the peer: validate before sizing or indexing anything
+	if fragCount == 0 || fragCount > maxFragments || fragIndex >= fragCount {
+		core.LogWarn(l, "Received NDNLPv2 fragment with invalid FragIndex/FragCount - DROP")
+		return nil
+	}
+
+	fragments, hasSequence := l.partialMessageStore[baseSequence]
 	if !hasSequence {
 		// Create map entry
 		l.partialMessageStore[baseSequence] = make([][]byte, fragCount)
+	} else if uint64(len(fragments)) != fragCount {
+		core.LogWarn(l, "Received NDNLPv2 fragment whose FragCount differs from the stored message - DROP")
+		return nil
 	}
 
 	// Insert into PartialMessageStore
